@@ -688,11 +688,23 @@ def _is_keys_call(n):
 def _local_lambdas(fn):
     """single-return nested defs used as values -> lambdas; **local dict"""
     nested = {}
-    for st in fn.body:
-        if isinstance(st, ast.FunctionDef) and not st.decorator_list:
-            if _single_expr(st) is not None and not st.args.vararg and \
-                    not st.args.kwarg:
-                nested[st.name] = st
+    holder = {}
+    for par in [fn] + [n for n in _own_nodes(fn)]:
+        for fld in ("body", "orelse", "finalbody"):
+            blk = getattr(par, fld, None)
+            if not isinstance(blk, list):
+                continue
+            for st in blk:
+                if isinstance(st, ast.FunctionDef) and \
+                        not st.decorator_list:
+                    if _single_expr(st) is not None and \
+                            not st.args.vararg and not st.args.kwarg:
+                        if st.name in nested:
+                            nested[st.name] = None   # ambiguous
+                        else:
+                            nested[st.name] = st
+                            holder[st.name] = (par, fld)
+    nested = {k: v for k, v in nested.items() if v is not None}
     if nested:
         stores = [n.id for n in ast.walk(fn) if isinstance(n, ast.Name)
                   and isinstance(n.ctx, ast.Store)]
@@ -714,6 +726,10 @@ def _local_lambdas(fn):
                     if isinstance(par, ast.Dict) and any(
                             v is u for v in par.values):
                         return True
+                    if isinstance(par, ast.Call) and (any(
+                            a is u for a in par.args) or any(
+                            k.value is u for k in par.keywords)):
+                        return True
                 return False
             if not all(in_container(u) for u in uses):
                 continue
@@ -721,7 +737,9 @@ def _local_lambdas(fn):
             for u in uses:
                 lam = ast.Lambda(args=clone(d.args), body=clone(body))
                 _replace_node(fn, u, lam)
-            fn.body = [s for s in fn.body if s is not d]
+            par, fld = holder[name]
+            setattr(par, fld, [s for s in getattr(par, fld) if s is not d]
+                    or [ast.Pass()])
     # f(**d) with d a local dict literal / dict(...) call
     dicts = {}
     for st in fn.body:
@@ -754,9 +772,325 @@ def _local_lambdas(fn):
     ast.fix_missing_locations(fn)
 
 
+# ---------------------------------------------------------------------------
+# module-level constants
+
+_MUT_METHODS = {"append", "extend", "insert", "remove", "pop", "update",
+                "clear", "sort", "reverse", "setdefault", "popitem", "add",
+                "discard"}
+
+
+def _scalar_const(v):
+    if isinstance(v, ast.Constant) and isinstance(
+            v.value, (int, float, str)) and not isinstance(v.value, bool):
+        return True
+    if isinstance(v, ast.BinOp) and isinstance(v.op, (
+            ast.Add, ast.Sub, ast.Mult, ast.Div, ast.Pow)):
+        return all(_scalar_const(x) and not (isinstance(x, ast.Constant)
+                                             and isinstance(x.value, str))
+                   for x in (v.left, v.right))
+    if isinstance(v, ast.Attribute) and isinstance(v.value, ast.Name) and \
+            v.value.id in ("np", "numpy", "math") and v.attr == "pi":
+        return True
+    if isinstance(v, ast.UnaryOp) and isinstance(v.op, (ast.USub, ast.UAdd)):
+        return _scalar_const(v.operand) and not isinstance(
+            v.operand.value if isinstance(v.operand, ast.Constant) else 0,
+            str)
+    return False
+
+
+def _literal_coll(v, depth=0):
+    """tuple/list/dict of constants (nested up to 2 levels)"""
+    if isinstance(v, ast.Constant):
+        return True
+    if _scalar_const(v):
+        return True
+    if depth > 2:
+        return False
+    if isinstance(v, (ast.Tuple, ast.List)):
+        return all(_literal_coll(e, depth + 1) for e in v.elts)
+    if isinstance(v, ast.Dict):
+        return all(k is not None and _literal_coll(k, depth + 1)
+                   and _literal_coll(x, depth + 1)
+                   for k, x in zip(v.keys, v.values))
+    return False
+
+
+def module_constants(tree):
+    """(scalars, collections): module-level names bound exactly once to a
+    literal and never re-bound or mutated anywhere in the module."""
+    bound = {}
+    count = {}
+    for st in tree.body:
+        tg = []
+        if isinstance(st, ast.Assign):
+            tg = [n.id for t in st.targets for n in ast.walk(t)
+                  if isinstance(n, ast.Name)]
+            if len(st.targets) == 1 and isinstance(st.targets[0], ast.Name):
+                bound[st.targets[0].id] = st.value
+        elif isinstance(st, (ast.AnnAssign, ast.AugAssign)):
+            tg = [n.id for n in ast.walk(st.target)
+                  if isinstance(n, ast.Name)]
+            if isinstance(st, ast.AnnAssign) and st.value is not None and \
+                    isinstance(st.target, ast.Name):
+                bound[st.target.id] = st.value
+        elif isinstance(st, (ast.FunctionDef, ast.ClassDef)):
+            tg = [st.name]
+        elif isinstance(st, (ast.Import, ast.ImportFrom)):
+            tg = [(a.asname or a.name).split(".")[0] for a in st.names]
+        elif isinstance(st, (ast.For, ast.With, ast.If, ast.Try, ast.While)):
+            tg = [n.id for n in ast.walk(st) if isinstance(n, ast.Name)
+                  and isinstance(n.ctx, ast.Store)]
+        for t in tg:
+            count[t] = count.get(t, 0) + 1
+    bad = set()
+    for n in ast.walk(tree):
+        if isinstance(n, ast.Global):
+            bad.update(n.names)
+        elif isinstance(n, (ast.Subscript, ast.Attribute)) and isinstance(
+                n.ctx, (ast.Store, ast.Del)):
+            b = n
+            while isinstance(b, (ast.Subscript, ast.Attribute)):
+                b = b.value
+            if isinstance(b, ast.Name):
+                bad.add(b.id)
+        elif isinstance(n, ast.Call) and isinstance(n.func, ast.Attribute) \
+                and n.func.attr in _MUT_METHODS and isinstance(
+                    n.func.value, ast.Name):
+            bad.add(n.func.value.id)
+        elif isinstance(n, ast.AugAssign) and isinstance(n.target, ast.Name):
+            bad.add(n.target.id)
+    # names re-bound inside functions shadow the constant there: be
+    # conservative and drop them entirely
+    for n in ast.walk(tree):
+        if isinstance(n, (ast.FunctionDef, ast.Lambda)):
+            args = n.args
+            for a in args.posonlyargs + args.args + args.kwonlyargs + [
+                    x for x in (args.vararg, args.kwarg) if x]:
+                bad.add(a.arg)
+            if isinstance(n, ast.FunctionDef):
+                for m in _own_nodes(n):
+                    if isinstance(m, ast.Name) and isinstance(
+                            m.ctx, (ast.Store, ast.Del)):
+                        bad.add(m.id)
+    scal, coll = {}, {}
+    for name, v in bound.items():
+        if count.get(name, 0) != 1 or name in bad:
+            continue
+        if _scalar_const(v):
+            scal[name] = v
+        elif _literal_coll(v):
+            coll[name] = v
+    return scal, coll
+
+
+class _ConstInline(ast.NodeTransformer):
+    def __init__(self, scal):
+        self.scal = scal
+        self.depth = 0
+
+    def visit_FunctionDef(self, node):
+        self.depth += 1
+        self.generic_visit(node)
+        self.depth -= 1
+        return node
+
+    visit_AsyncFunctionDef = visit_FunctionDef
+
+    def visit_Name(self, node):
+        if isinstance(node.ctx, ast.Load) and node.id in self.scal:
+            return ast.copy_location(clone(self.scal[node.id]), node)
+        return node
+
+
+class Idioms2(ast.NodeTransformer):
+    """second batch of behaviour-preserving canonicalisations"""
+
+    def __init__(self, coll):
+        self.coll = coll
+
+    def visit_Call(self, node):
+        self.generic_visit(node)
+        f = node.func
+        # d.update(k=v, ...) -> d.update({"k": v, ...})
+        if isinstance(f, ast.Attribute) and f.attr == "update" and \
+                not node.args and node.keywords and all(
+                    kw.arg is not None for kw in node.keywords):
+            d = ast.Dict(keys=[ast.Constant(value=kw.arg)
+                               for kw in node.keywords],
+                         values=[kw.value for kw in node.keywords])
+            node.args, node.keywords = [d], []
+            return node
+        # dict.fromkeys(<literal keys>, v) -> {k: v, ...}
+        if isinstance(f, ast.Attribute) and f.attr == "fromkeys" and \
+                isinstance(f.value, ast.Name) and f.value.id == "dict" and \
+                len(node.args) == 2 and not node.keywords and isinstance(
+                    node.args[1], (ast.Name, ast.Constant, ast.Attribute)):
+            ks = node.args[0]
+            if isinstance(ks, ast.Name) and ks.id in self.coll:
+                ks = self.coll[ks.id]
+            if isinstance(ks, (ast.Tuple, ast.List)) and all(
+                    isinstance(e, ast.Constant) for e in ks.elts):
+                return ast.copy_location(ast.Dict(
+                    keys=[clone(e) for e in ks.elts],
+                    values=[clone(node.args[1]) for _ in ks.elts]), node)
+        if isinstance(f, ast.Attribute) and isinstance(f.value, ast.Name) \
+                and f.value.id in ("np", "numpy") and len(node.args) == 1 \
+                and not node.keywords:
+            a = node.args[0]
+            # np.count_nonzero(<mask expression>) -> np.sum(<mask>)
+            if f.attr == "count_nonzero" and _is_mask(a):
+                f.attr = "sum"
+                return node
+            # np.flatnonzero(x) -> np.where(x)[0]
+            if f.attr == "flatnonzero":
+                f.attr = "where"
+                return ast.copy_location(ast.Subscript(
+                    value=node, slice=ast.Constant(value=0), ctx=ast.Load()),
+                    node)
+        return node
+
+    def visit_For(self, node):
+        self.generic_visit(node)
+        if isinstance(node.iter, ast.Name) and node.iter.id in self.coll and \
+                isinstance(self.coll[node.iter.id], (ast.Tuple, ast.List)):
+            node.iter = ast.copy_location(clone(self.coll[node.iter.id]),
+                                          node.iter)
+        return node
+
+    def _stmts(self, body):
+        out = []
+        for st in body:
+            out.extend(self._split(st))
+        return out
+
+    def _split(self, st):
+        # a, b = x, y  ->  a = x; b = y   (no target read by any value)
+        if isinstance(st, ast.Assign) and len(st.targets) == 1 and \
+                isinstance(st.targets[0], (ast.Tuple, ast.List)) and \
+                isinstance(st.value, (ast.Tuple, ast.List)) and \
+                len(st.targets[0].elts) == len(st.value.elts) and all(
+                    isinstance(t, ast.Name) for t in st.targets[0].elts) \
+                and not any(isinstance(v, ast.Starred)
+                            for v in st.value.elts):
+            tn = {t.id for t in st.targets[0].elts}
+            used = {n.id for v in st.value.elts for n in ast.walk(v)
+                    if isinstance(n, ast.Name)}
+            if not (tn & used) and len(tn) == len(st.targets[0].elts):
+                return [ast.copy_location(ast.Assign(targets=[t], value=v),
+                                          st)
+                        for t, v in zip(st.targets[0].elts, st.value.elts)]
+        # x.extend(y) -> x += y
+        if isinstance(st, ast.Expr) and isinstance(st.value, ast.Call) and \
+                isinstance(st.value.func, ast.Attribute) and \
+                st.value.func.attr == "extend" and isinstance(
+                    st.value.func.value, ast.Name) and \
+                len(st.value.args) == 1 and not st.value.keywords:
+            return [ast.copy_location(ast.AugAssign(
+                target=ast.Name(id=st.value.func.value.id, ctx=ast.Store()),
+                op=ast.Add(), value=st.value.args[0]), st)]
+        # x = A if c else B / return A if c else B -> if statement
+        if isinstance(st, (ast.Assign, ast.Return)) and isinstance(
+                st.value, ast.IfExp) and (isinstance(st, ast.Return) or (
+                    len(st.targets) == 1 and isinstance(
+                        st.targets[0], ast.Name))):
+            ie = st.value
+            if isinstance(st, ast.Return):
+                a = ast.Return(value=ie.body)
+                b = ast.Return(value=ie.orelse)
+            else:
+                a = ast.Assign(targets=[clone(st.targets[0])], value=ie.body)
+                b = ast.Assign(targets=[clone(st.targets[0])],
+                               value=ie.orelse)
+            new = ast.If(test=ie.test, body=[ast.copy_location(a, st)],
+                         orelse=[ast.copy_location(b, st)])
+            return [ast.copy_location(new, st)]
+        # if A and (x := e) <rest>: B     (no else)
+        #   ->  if A: x = e; if x <rest>: B
+        if isinstance(st, ast.If) and not st.orelse and isinstance(
+                st.test, ast.BoolOp) and isinstance(st.test.op, ast.And) \
+                and _leading_walrus(st.test) is None:
+            for i, v in enumerate(st.test.values):
+                if i and _leading_walrus(v) is not None:
+                    head = st.test.values[:i]
+                    tail = st.test.values[i:]
+                    inner = ast.copy_location(ast.If(
+                        test=tail[0] if len(tail) == 1 else ast.BoolOp(
+                            op=ast.And(), values=tail),
+                        body=st.body, orelse=[]), st)
+                    outer = ast.copy_location(ast.If(
+                        test=head[0] if len(head) == 1 else ast.BoolOp(
+                            op=ast.And(), values=head),
+                        body=self._split(inner), orelse=[]), st)
+                    return [outer]
+        # if (x := e) <rest>: ...   ->   x = e; if x <rest>: ...
+        if isinstance(st, ast.If):
+            w = _leading_walrus(st.test)
+            if w is not None:
+                asg = ast.copy_location(ast.Assign(
+                    targets=[ast.Name(id=w.target.id, ctx=ast.Store())],
+                    value=w.value), st)
+                _replace_node(st, w, ast.copy_location(
+                    ast.Name(id=w.target.id, ctx=ast.Load()), w))
+                return [asg, st]
+        return [st]
+
+    def generic_visit(self, node):
+        super().generic_visit(node)
+        for fld in ("body", "orelse", "finalbody"):
+            blk = getattr(node, fld, None)
+            if isinstance(blk, list) and blk and isinstance(blk[0],
+                                                            ast.stmt):
+                setattr(node, fld, self._stmts(blk))
+        return node
+
+
+def _leading_walrus(test):
+    """the NamedExpr evaluated first and unconditionally by `test`"""
+    t = test
+    while True:
+        if isinstance(t, ast.NamedExpr) and isinstance(t.target, ast.Name):
+            return t
+        if isinstance(t, ast.BoolOp):
+            t = t.values[0]
+        elif isinstance(t, ast.Compare):
+            if isinstance(t.left, (ast.Constant, ast.Name)) and \
+                    len(t.comparators) == 1:
+                t = t.comparators[0]
+            else:
+                t = t.left
+        elif isinstance(t, ast.UnaryOp):
+            t = t.operand
+        elif isinstance(t, ast.Call) and isinstance(t.func, ast.Attribute):
+            t = t.func.value
+        elif isinstance(t, (ast.Attribute, ast.Subscript)):
+            t = t.value
+        else:
+            return None
+
+
+def _is_mask(a):
+    if isinstance(a, ast.Compare):
+        return True
+    if isinstance(a, ast.UnaryOp) and isinstance(a.op, ast.Invert):
+        return _is_mask(a.operand)
+    if isinstance(a, ast.BinOp) and isinstance(a.op, (ast.BitAnd,
+                                                     ast.BitOr)):
+        return _is_mask(a.left) and _is_mask(a.right)
+    if isinstance(a, ast.Call) and isinstance(a.func, ast.Attribute) and \
+            a.func.attr in ("isnan", "isinf", "isfinite", "logical_and",
+                            "logical_or", "logical_not"):
+        return True
+    return False
+
+
 def normalize_module(tree: ast.Module) -> ast.Module:
+    scal, coll = module_constants(tree)
+    if scal:
+        tree = _ConstInline(scal).visit(tree)
     tree = Inliner(tree).run()
     tree = Idioms().visit(tree)
+    tree = Idioms2(coll).visit(tree)
     tree = Unroll().visit(tree)
     tree = AttrCalls().visit(tree)
     for n in ast.walk(tree):
